@@ -1,0 +1,5 @@
+//go:build !verif
+
+package modbus
+
+func verifYield(point string) {}
